@@ -235,6 +235,9 @@ func trunc(s string, n int) string {
 type Options struct {
 	MaxObjects int  // 0 = 10000
 	SkipData   bool // metadata only
+	// MaxElems, when non-zero, skips the data of datasets that declare more elements
+	// (their three read results carry the error "skipped").
+	MaxElems uint64
 }
 
 func canonValue(v interface{}) string {
@@ -431,6 +434,20 @@ func File(path string, opt Options) *Dump {
 			})
 			if opt.SkipData {
 				break
+			}
+			if opt.MaxElems != 0 && o.MetaRes.OK() {
+				n := uint64(1)
+				for _, d := range o.Dims {
+					if d != 0 && n > opt.MaxElems/d {
+						n = opt.MaxElems + 1
+						break
+					}
+					n *= d
+				}
+				if n > opt.MaxElems {
+					o.ReadRes, o.StringsRes, o.CompoundRes = Res{Err: "skipped"}, Res{Err: "skipped"}, Res{Err: "skipped"}
+					break
+				}
 			}
 			o.ReadRes = guard(func() error {
 				v, err := x.Read()
